@@ -111,6 +111,14 @@ var c01Gen0 = XGen{Names: xmlNames, AttrNames: xmlAttrNames, Texts: xmlTexts, Ma
 
 func genXdoc(r *Rng, g *XGen, castOn bool) string {
 	root := r.xmlDoc(g)
+	if r.P(1) && r.P(30) {
+		// "any depth": a chain of more than ten thousand elements
+		cur := &XNode{Kind: 'N', Name: "leaf", Kids: []*XNode{{Kind: 'T', Text: "deep"}}}
+		for i := 0; i < 10001+r.Intn(300); i++ {
+			cur = &XNode{Kind: 'N', Name: "d", Kids: []*XNode{cur}}
+		}
+		root = &XNode{Kind: 'N', Name: "root", Kids: []*XNode{cur}}
+	}
 	var sb strings.Builder
 	if r.P(10) {
 		sb.WriteString(r.Pick([]string{"<?xml version=\"1.0\"?>", "\xef\xbb\xbf", "<!-- lead -->", "\n  ", "<!DOCTYPE x>"}))
